@@ -91,7 +91,43 @@ def gen_case(rng):
             for col in cols:
                 c["extra"].setdefault(col, [rng.randint(0, 9) for _ in range(nb)])
     shared_extra = {"gc": [rng.randint(0, 100) for _ in range(nb)]} if mode == "single_extra" else None
-    return {"chromnames": names, "bins": rows, "mode": mode, "shared_extra": shared_extra, "order": cnames, "cells": cells}
+    case = {"chromnames": names, "bins": rows, "mode": mode, "shared_extra": shared_extra, "order": cnames, "cells": cells}
+    if rng.random() < 0.6:
+        case["opts"] = gen_opts(rng, case, nb)
+    return case
+
+
+def gen_opts(rng, case, nb):
+    """optional parameters of create_scool: dtypes (count as float64 with fractional dyadic values / int64 beyond
+    int32 / default), an extra pixel value column via columns+dtypes, h5opts, mode, square (non-symmetric) cells,
+    chunked iterator input, the check flags, a collection already present in the file (mode a)"""
+    o = {"count_dtype": rng.choice(["default", "float64", "int64", "int32"]),
+         "extra": rng.choice([None, None, ["score", "float64"], ["score", "int32"], ["w2", "float64"]]),
+         "h5opts": rng.choice([None, None, {"compression": "lzf"}, {"compression": "gzip", "compression_opts": 1, "shuffle": False}]),
+         "mode": rng.choice(["w", "w", "a"]), "symm": rng.random() > 0.25,
+         "chunks": rng.choice([None, None, 1, 2, 3]),
+         "flags": {k: rng.random() < 0.7 for k in ("boundscheck", "dupcheck", "triucheck")},
+         "pre": rng.random() < 0.3}
+    if not o["symm"]:
+        o["flags"]["triucheck"] = False
+    for n, c in case["cells"].items():
+        px = {}
+        for (i, j, v) in c["pixels"]:
+            if not o["symm"] and rng.random() < 0.5:
+                i, j = j, i
+            if o["count_dtype"] == "float64":
+                v = v + rng.choice([0.25, 0.5, 0.75, 0.125, 0.0])
+            elif o["count_dtype"] == "int64":
+                v = v + rng.choice([0, 2 ** 31, 2 ** 40 + 5])
+            px[(i, j)] = v
+        if not o["symm"]:
+            for _ in range(rng.randint(0, nb)):
+                i, j = rng.randrange(nb), rng.randrange(nb)
+                px.setdefault((i, j), rng.randint(1, 9) + (0.5 if o["count_dtype"] == "float64" else 0))
+        c["pixels"] = sorted((i, j, v) for (i, j), v in px.items())
+        if o["extra"]:
+            c["xcol"] = [(rng.randint(-8, 40) / 4.0 if o["extra"][1] == "float64" else rng.randint(-5, 1000)) for _ in c["pixels"]]
+    return o
 
 
 def corpus():
@@ -111,8 +147,24 @@ def corpus():
         # the Appendix-B mutation shape: several cells with different content
         {"chromnames": ["chr1", "chr2"], "bins": bins, "mode": "single", "shared_extra": None, "order": ["z", "a", "m"],
          "cells": {"z": {"pixels": p3, "extra": None}, "a": {"pixels": p1, "extra": None}, "m": {"pixels": [(0, 0, 4)], "extra": None}}},
+        {"chromnames": ["chr1", "chr2"], "bins": bins, "mode": "single", "shared_extra": None, "order": ["f1", "f2"],
+         "cells": {"f1": {"pixels": [(0, 1, 1.5), (1, 4, 2.25)], "extra": None}, "f2": {"pixels": [(2, 2, 0.125)], "extra": None}},
+         "opts": {"count_dtype": "float64", "extra": None, "h5opts": None, "mode": "w", "symm": True, "chunks": None, "flags": {}, "pre": False}},
+        {"chromnames": ["chr1", "chr2"], "bins": bins, "mode": "dict", "shared_extra": None, "order": ["big", "sq"],
+         "cells": {"big": {"pixels": [(0, 1, 2 ** 40 + 5), (1, 4, 2)], "extra": {"w": [0, 1, 2, 3, 4]}, "xcol": [0.5, -1.25]},
+                   "sq": {"pixels": [(0, 1, 7), (3, 0, 2 ** 31)], "extra": {"w": [9, 8, 7, 6, 5]}, "xcol": [3.0, 0.75]}},
+         "opts": {"count_dtype": "int64", "extra": ["score", "float64"], "h5opts": {"compression": "lzf"}, "mode": "a", "symm": False,
+                  "chunks": 1, "flags": {"boundscheck": True, "dupcheck": False, "triucheck": False}, "pre": True}},
     ]
     return out
+
+
+NP_DTYPE = {"default": np.int32, "int32": np.int32, "int64": np.int64, "float64": np.float64}
+
+
+def count_dtype_name(case):
+    o = case.get("opts")
+    return np.dtype(NP_DTYPE[o["count_dtype"]] if o else np.int32).name
 
 
 # ------------------------------------------------------------------ implementation
@@ -131,12 +183,57 @@ def frames(case):
             for col, vals in case["shared_extra"].items():
                 bins[col] = np.array(vals, dtype=np.int64)
     px = {}
+    o = case.get("opts")
     for n in case["order"]:
         r = case["cells"][n]["pixels"]
-        px[n] = pd.DataFrame({"bin1_id": np.array([x[0] for x in r], dtype=np.int64),
-                              "bin2_id": np.array([x[1] for x in r], dtype=np.int64),
-                              "count": np.array([x[2] for x in r], dtype=np.int32)})
+        df = pd.DataFrame({"bin1_id": np.array([x[0] for x in r], dtype=np.int64),
+                           "bin2_id": np.array([x[1] for x in r], dtype=np.int64),
+                           "count": np.array([x[2] for x in r], dtype=NP_DTYPE[o["count_dtype"]] if o else np.int32)})
+        if o and o["extra"]:
+            df[o["extra"][0]] = np.array(case["cells"][n]["xcol"], dtype=o["extra"][1])
+        if o and o["chunks"]:
+            k = o["chunks"]
+            px[n] = [df.iloc[a:a + k] for a in range(0, max(len(df), 1), k)]      # an iterable of chunks
+        else:
+            px[n] = df
     return bins, px
+
+
+def scool_kwargs(case):
+    o = case.get("opts")
+    if not o:
+        return {}
+    kw = {"mode": o["mode"], "symmetric_upper": o["symm"]}
+    dt = {}
+    if o["count_dtype"] != "default":
+        dt["count"] = NP_DTYPE[o["count_dtype"]]
+    if o["extra"]:
+        kw["columns"] = ["count", o["extra"][0]]
+        dt[o["extra"][0]] = np.dtype(o["extra"][1]).type
+    if dt:
+        kw["dtypes"] = dt
+    if o["h5opts"]:
+        kw["h5opts"] = dict(o["h5opts"])
+    kw.update(o["flags"])
+    return kw
+
+
+def num(v):
+    """exact python number: int when integral-typed, float otherwise"""
+    if isinstance(v, (np.integer, int)):
+        return int(v)
+    v = float(v)
+    return int(v) if False else v
+
+
+def raw_group(fn, root):
+    out = {}
+    with h5py.File(fn, "r") as h:
+        g = h[root]
+        attrs = _attrs(g)
+        for t in g.keys():
+            out[t] = {col: G._payload(g[t][col]) for col in g[t].keys()}
+    return out, attrs
 
 
 def ident(o):
@@ -148,7 +245,14 @@ def run_impl(d, k, case):
     from cooler import fileops
     fn = os.path.join(d, f"s{k}.scool")
     bins, px = frames(case)
-    out = {"outcome": G.guarded(cooler.create_scool, fn, bins, px)[0]}
+    o_ = case.get("opts") or {}
+    out = {}
+    if o_.get("pre"):
+        # a plain collection already in the file: mode "a" must keep it, mode "w" replaces the file
+        cooler.create_cooler(fn + "::/other", pd.DataFrame(case["bins"], columns=["chrom", "start", "end"]),
+                             pd.DataFrame({"bin1_id": [0], "bin2_id": [0], "count": [3]}))
+        out["pre_tables"] = raw_group(fn, "/other")
+    out["outcome"] = G.guarded(cooler.create_scool, fn, bins, px, **scool_kwargs(case))[0]
     if out["outcome"] != "Ok" or not os.path.exists(fn):
         return out
     o, v = G.guarded(fileops.list_scool_cells, fn)
@@ -161,11 +265,14 @@ def run_impl(d, k, case):
             c = cooler.Cooler(fn + "::/cells/" + n)
             b = c.bins()[:]
             p = c.pixels()[:]
-            return {"pixels": [[int(a), int(b_), int(v_)] for a, b_, v_ in zip(p["bin1_id"], p["bin2_id"], p["count"])],
+            xc = (case.get("opts") or {}).get("extra")
+            return {"pixels": [[int(a), int(b_), num(v_)] for a, b_, v_ in zip(p["bin1_id"], p["bin2_id"], p["count"])],
+                    "count_dtype": p["count"].dtype.name,
+                    "xcol": [num(v_) for v_ in p[xc[0]]] if xc else None, "xcol_dtype": p[xc[0]].dtype.name if xc else None,
                     "bins": {col: ([str(x) for x in b[col]] if col == "chrom" else [int(x) for x in b[col]]) for col in b.columns},
-                    "matrix": [[int(x) for x in row] for row in c.matrix(balance=False)[:]],
+                    "matrix": [[num(x) for x in row] for row in c.matrix(balance=False)[:]],
                     "chroms": [[str(a), int(L)] for a, L in c.chromsizes.items()],
-                    "nnz": int(c.info["nnz"]), "sum": int(c.info["sum"])}
+                    "nnz": int(c.info["nnz"]), "sum": num(c.info["sum"])}
         o, v = G.guarded(rd)
         cells[n] = v if o == "Ok" else o
     out["cells"] = cells
@@ -178,17 +285,37 @@ def run_impl(d, k, case):
             if g is None:
                 ids["cells"][n] = None
                 continue
-            e = {"chroms": ident(g["chroms"]), "bins": ident(g["bins"])}
+            e = {"chroms": ident(g["chroms"]), "bins": ident(g["bins"]),
+                 "pixel_dtypes": {col: g["pixels"][col].dtype.name for col in g["pixels"].keys()},
+                 "count_compression": g["pixels"]["count"].compression, "storage": _attrs(g).get("storage-mode")}
             for col in g["bins"].keys():
                 e["bins/" + col] = ident(g["bins"][col])
             ids["cells"][n] = e
         ids["cellkeys"] = sorted(h["cells"].keys())
         ids["rootkeys"] = sorted(h.keys())
+        ids["other_is_cooler"] = ("other" in h and h["other"].attrs.get("format", None) == "HDF5::Cooler")
         attrs = {"root": _attrs(h), "cells": {n: _attrs(h["cells"][n]) for n in h["cells"].keys()}}
     out["ids"] = ids
     out["attrs"] = attrs
-    out["dump"] = G.canon_dump(G.raw_dump_file(fn, 6))
+    out["dump"] = G.canon_dump(scale_floats(G.raw_dump_file(fn, 6)))
     return out
+
+
+def scale_floats(entries):
+    """float payloads (dyadic by construction) are shown to the integer-payload model as value*8"""
+    out = []
+    for p, e in entries:
+        if e[0] == "D" and e[2][0] == "F":
+            e = ["D", e[1], ["I", [scaled(v) for v in e[2][1]]]]
+        out.append([p, e])
+    return out
+
+
+def scaled(v):
+    x = v * 8
+    if x != int(x):
+        raise ValueError("non-dyadic float in a payload")
+    return int(x)
 
 
 def _attrs(o):
@@ -209,6 +336,10 @@ def oracle(case, r):
         bad.append({"what": "is_scool_file", "got": r["is_scool"]})
     nb = len(case["bins"])
     ids = r["ids"]
+    o0 = case.get("opts") or {}
+    if o0.get("pre") and ids["other_is_cooler"] != (o0["mode"] == "a"):
+        bad.append({"what": "collection already in the file: mode a must keep it, mode w must replace the file",
+                    "mode": o0["mode"], "still_there": ids["other_is_cooler"]})
     if ids["cellkeys"] != sorted(names):
         bad.append({"what": "members of /cells", "got": ids["cellkeys"], "expected": sorted(names)})
     shared = case["shared_extra"] or {}
@@ -218,12 +349,29 @@ def oracle(case, r):
         if not isinstance(got, dict):
             bad.append({"what": "cell cannot be read through cooler.Cooler", "cell": n, "got": got})
             continue
+        o_ = case.get("opts") or {}
+        symm = o_.get("symm", True)
+        if got["count_dtype"] != count_dtype_name(case):
+            bad.append({"what": "dtype of the count column read back", "cell": n, "got": got["count_dtype"], "expected": count_dtype_name(case)})
+        e_ = ids["cells"].get(n) or {}
+        if e_ and e_["pixel_dtypes"].get("count") != count_dtype_name(case):
+            bad.append({"what": "stored dtype of pixels/count", "cell": n, "got": e_["pixel_dtypes"].get("count"), "expected": count_dtype_name(case)})
+        if o_.get("extra"):
+            xn, xt = o_["extra"]
+            if got["xcol"] != list(cell["xcol"]) or got["xcol_dtype"] != np.dtype(xt).name or e_.get("pixel_dtypes", {}).get(xn) != np.dtype(xt).name:
+                bad.append({"what": "extra pixel column (values or dtype)", "cell": n, "got": [got["xcol"][:8], got["xcol_dtype"], e_.get("pixel_dtypes", {}).get(xn)],
+                            "expected": [list(cell["xcol"])[:8], xt]})
+        if o_.get("h5opts") and e_ and e_["count_compression"] != o_["h5opts"]["compression"]:
+            bad.append({"what": "h5opts not applied to the cell's pixel datasets", "cell": n, "got": e_["count_compression"]})
+        if e_ and e_["storage"] != ("symmetric-upper" if symm else "square"):
+            bad.append({"what": "storage-mode of the cell", "cell": n, "got": e_["storage"]})
         if got["pixels"] != [list(p) for p in cell["pixels"]]:
             bad.append({"what": "pixels of the cell", "cell": n, "got": got["pixels"][:10], "expected": [list(p) for p in cell["pixels"]][:10]})
         M = [[0] * nb for _ in range(nb)]
         for i, j, v in cell["pixels"]:
             M[i][j] = v
-            M[j][i] = v
+            if symm:
+                M[j][i] = v
         if got["matrix"] != M:
             bad.append({"what": "matrix of the cell", "cell": n})
         exp_bins = {"chrom": [b[0] for b in case["bins"]], "start": [b[1] for b in case["bins"]], "end": [b[2] for b in case["bins"]]}
@@ -259,6 +407,15 @@ def cols_lit(d):
     return C.lst([C.tup(C.s(k), G.coq_payload(v)) for k, v in d.items()])
 
 
+def pixel_cols(case, cell, px, b1):
+    o = case.get("opts") or {}
+    fl = o.get("count_dtype") == "float64"
+    d = {"bin1_id": ("I", b1), "bin2_id": ("I", [p[1] for p in px]), "count": ("I", [scaled(p[2]) if fl else p[2] for p in px])}
+    if o.get("extra"):
+        d[o["extra"][0]] = ("I", [scaled(v) if o["extra"][1] == "float64" else v for v in cell["xcol"]])
+    return d
+
+
 def model_expr(case, r):
     names = case["chromnames"]
     codes = [names.index(b[0]) for b in case["bins"]]
@@ -279,10 +436,18 @@ def model_expr(case, r):
         extra = cell["extra"] if case["mode"] == "dict" else (case["shared_extra"] or {})
         cells.append("(mkCell %s %s %s %s %s)" % (
             C.s(n), cols_lit({k: ("I", list(v)) for k, v in (extra or {}).items()}),
-            cols_lit({"bin1_id": ("I", b1), "bin2_id": ("I", [p[1] for p in px]), "count": ("I", [p[2] for p in px])}),
+            cols_lit(pixel_cols(case, cell, px, b1)),
             cols_lit({"chrom_offset": ("I", coff), "bin1_offset": ("I", off)}),
             G.coq_attrs(r["attrs"]["cells"].get(n, {}))))
-    return (f"let r := create_scool world0 FA true {cols_lit(root_chroms)} {cols_lit(root_bins)} {G.coq_attrs(r['attrs']['root'])} {C.lst(cells)} in "
+    o = case.get("opts") or {}
+    w_init = "world0"
+    if o.get("pre"):
+        tables, attrs = r["pre_tables"]
+        order = [t for t in ("chroms", "bins", "pixels", "indexes") if t in tables]
+        tl = {t: {c: (tuple(pl) if pl[0] != "E" else ("E", pl[1], pl[2])) for c, pl in tables[t].items()} for t in tables}
+        w_init = f"(snd (create world0 FA {G.coq_path('/other')} false {G.coq_spec(tl, attrs, order=order)}))"
+    mode_w = C.b(o.get("mode", "w") == "w")
+    return (f"let r := create_scool {w_init} FA {mode_w} {cols_lit(root_chroms)} {cols_lit(root_bins)} {G.coq_attrs(r['attrs']['root'])} {C.lst(cells)} in "
             f"(fst r, dump_file 6 (snd r) FA, list_scool_cells (snd r) FA, is_scool_file (snd r) FA)")
 
 
@@ -308,7 +473,7 @@ def run(ctx):
     vals = iter(C.coq_eval(IMPORTS, exprs, shard=30, jobs=4, timeout=900, tmpdir=ctx.tmp / "model"))
     for case, kind, r in todo:
         distinct = len({tuple(map(tuple, c["pixels"])) for c in case["cells"].values()}) >= 2
-        ctx.case(case, nontrivial=distinct, kind=f"{kind}:{case['mode']}:{len(case['order'])}")
+        ctx.case(case, nontrivial=distinct, kind=f"{kind}:{case['mode']}:{len(case['order'])}" + (':opts' if case.get('opts') else ''))
         for b in oracle(case, r):
             ctx.fail(case, b, None)
         if r["outcome"] != "Ok" or "attrs" not in r:
